@@ -17,6 +17,7 @@ import (
 	"testing"
 	"time"
 
+	"github.com/hashicorp/raft"
 	"github.com/rqlite/rqlite/v10/command/proto"
 )
 
@@ -41,8 +42,14 @@ type c22Run struct {
 	base    string
 	scratch string
 	nodes   []*vsNode
-	entries []c04Entry // only the raft indices are used (projection of snapshot indices)
+	entries []c04Entry       // only the raft indices are used (projection of snapshot indices)
+	pend    map[int]*c22Pend // per node: snapshot created (fsmSnapshot) and not yet persisted / released
 	spec    []int
+}
+
+type c22Pend struct {
+	f         raft.FSMSnapshot
+	idx, term uint64
 }
 
 func (r *c22Run) leader() *vsNode { return r.nodes[0] }
@@ -61,7 +68,7 @@ func (r *c22Run) project(idx uint64) int {
 // FSM goroutine, so the store's own fsmIdx is polled)
 func (r *c22Run) settle() error {
 	l := r.leader().s
-	if err := l.raft.Barrier(15 * time.Second).Error(); err != nil {
+	if err := l.raft.Barrier(90 * time.Second).Error(); err != nil {
 		return err
 	}
 	var want uint64
@@ -73,7 +80,7 @@ func (r *c22Run) settle() error {
 	if li := l.fsmIdx.Load(); li < want {
 		want = li // the recorded index of a load is an upper bound
 	}
-	dl := time.Now().Add(20 * time.Second)
+	dl := time.Now().Add(90 * time.Second)
 	last := l.raft.LastIndex()
 	for _, n := range r.nodes[1:] {
 		// configuration entries too: a snapshot is refused while one is committed but not yet applied
@@ -188,6 +195,9 @@ func (r *c22Run) step(op c22Op, rng *rand.Rand) (int, string, error) {
 		}
 		copy(r.spec, op.Data)
 	case "boot":
+		if r.pend[0] != nil && len(r.nodes) == 1 {
+			return 8, "", nil // ReadFrom's own snapshot would wait for the one in flight: not a case of the model
+		}
 		p := filepath.Join(r.scratch, "boot.db")
 		if err := vsMakeDB(p, op.Data, op.Wal); err != nil {
 			return 0, "", err
@@ -216,6 +226,9 @@ func (r *c22Run) step(op c22Op, rng *rand.Rand) (int, string, error) {
 		s := r.nodes[op.Node].s
 		noWAL := func(err error) bool {
 			return err == ErrNoWALToSnapshot || err == ErrNothingNewToSnapshot || strings.Contains(err.Error(), ErrNoWALToSnapshot.Error())
+		}
+		if r.pend[op.Node] != nil {
+			return 8, "", nil // raft takes one snapshot at a time
 		}
 		switch op.Out {
 		case "", "ok":
@@ -261,10 +274,68 @@ func (r *c22Run) step(op c22Op, rng *rand.Rand) (int, string, error) {
 			}
 			f.Release()
 		}
+	case "begin":
+		if op.Node >= len(r.nodes) {
+			return 6, "", nil
+		}
+		if r.pend[op.Node] != nil {
+			return 8, "", nil
+		}
+		s := r.nodes[op.Node].s
+		f, err := NewFSM(s).Snapshot()
+		if err != nil {
+			if err == ErrNoWALToSnapshot {
+				return 1, "", nil
+			}
+			return 0, "", err
+		}
+		r.pend[op.Node] = &c22Pend{f: f, idx: s.raft.AppliedIndex(), term: s.raft.CurrentTerm()}
+	case "persist":
+		if op.Node >= len(r.nodes) {
+			return 6, "", nil
+		}
+		pd := r.pend[op.Node]
+		if pd == nil {
+			return 8, "", nil
+		}
+		delete(r.pend, op.Node)
+		s := r.nodes[op.Node].s
+		switch op.Out {
+		case "", "ok":
+			cf := s.raft.GetConfiguration()
+			if err := cf.Error(); err != nil {
+				pd.f.Release()
+				return 0, "", err
+			}
+			time.Sleep(3 * time.Millisecond)
+			sink, err := s.snapshotStore.Create(raft.SnapshotVersionMax, pd.idx, pd.term, cf.Configuration(), 1, nil)
+			if err != nil {
+				pd.f.Release()
+				return 0, "", err
+			}
+			if err := pd.f.Persist(sink); err != nil {
+				sink.Cancel()
+				pd.f.Release()
+				if strings.Contains(err.Error(), "full snapshot needed") {
+					return 10, "", nil
+				}
+				return 0, "", err
+			}
+			if err := sink.Close(); err != nil {
+				pd.f.Release()
+				return 0, "", err
+			}
+		case "failbefore":
+			if pd.f.Persist(&c04failSink{}) == nil {
+				return 0, "", fmt.Errorf("persist to a failing sink succeeded")
+			}
+		}
+		pd.f.Release()
 	case "restart":
 		if op.Node >= len(r.nodes) {
 			return 6, "", nil
 		}
+		delete(r.pend, op.Node) // the snapshot in flight dies with the process
 		n := r.nodes[op.Node]
 		if op.Node == 0 {
 			if err := n.restartForce(op.Force); err != nil {
@@ -298,6 +369,7 @@ func (r *c22Run) step(op c22Op, rng *rand.Rand) (int, string, error) {
 }
 
 type c22NodeObs struct {
+	Pend   int
 	Live   []int
 	Full   bool
 	Cat    []vsSnap
@@ -306,10 +378,16 @@ type c22NodeObs struct {
 
 func (r *c22Run) observe() []c22NodeObs {
 	var out []c22NodeObs
-	for _, n := range r.nodes {
+	for ni, n := range r.nodes {
 		o := c22NodeObs{Live: n.dump(), Full: vsFileExists(filepath.Join(n.s.snapshotDir, "FULL_NEEDED")), Cat: vsCatalog(n.s.snapshotDir)}
 		for _, c := range o.Cat {
 			o.CatIdx = append(o.CatIdx, r.project(c.Index))
+		}
+		if pd := r.pend[ni]; pd != nil {
+			o.Pend = 2
+			if pd.f.(*FSMSnapshot).Type.IsFull() {
+				o.Pend = 1
+			}
 		}
 		out = append(out, o)
 	}
@@ -329,8 +407,16 @@ func c22CoqOp(op c22Op) string {
 	case "boot":
 		return "(CBoot " + vsCoqNList(op.Data) + ")"
 	case "snap":
-		out := map[string]string{"": "POk", "ok": "POk", "notinvoked": "PNotInvoked", "failbefore": "PFailBefore", "blocked": "PBlocked"}[op.Out]
+		if op.Out == "blocked" {
+			return fmt.Sprintf("(CSnapBlocked %d%%nat)", op.Node)
+		}
+		out := map[string]string{"": "POk", "ok": "POk", "notinvoked": "PNotInvoked", "failbefore": "PFailBefore"}[op.Out]
 		return fmt.Sprintf("(CSnap %d%%nat %s %s)", op.Node, out, coqBool(op.Compact && op.Node == 0))
+	case "begin":
+		return fmt.Sprintf("(CSnapBegin %d%%nat)", op.Node)
+	case "persist":
+		out := map[string]string{"": "POk", "ok": "POk", "notinvoked": "PNotInvoked", "failbefore": "PFailBefore"}[op.Out]
+		return fmt.Sprintf("(CSnapPersist %d%%nat %s)", op.Node, out)
 	case "restart":
 		return fmt.Sprintf("(CRestart %d%%nat)", op.Node)
 	}
@@ -338,13 +424,17 @@ func c22CoqOp(op c22Op) string {
 }
 
 func c22RunCase(in c22Input, base string, seq int) VCase {
+	return vsRetry(func(attempt int) VCase { return c22RunOnce(in, base, seq*2+attempt) })
+}
+
+func c22RunOnce(in c22Input, base string, seq int) VCase {
 	key := vJSON(in)
 	rng := rand.New(rand.NewSource(int64(seq) + 77))
 	root := filepath.Join(base, fmt.Sprintf("c%d", seq))
 	scratch := filepath.Join(root, "scratch")
 	os.MkdirAll(scratch, 0755)
 	defer os.RemoveAll(root)
-	r := &c22Run{base: root, scratch: scratch, spec: make([]int, vsKeys)}
+	r := &c22Run{base: root, scratch: scratch, spec: make([]int, vsKeys), pend: map[int]*c22Pend{}}
 	n0 := vsNewNode(filepath.Join(root, "n0"), "n0")
 	r.nodes = []*vsNode{n0}
 	defer func() {
@@ -368,6 +458,9 @@ func c22RunCase(in c22Input, base string, seq int) VCase {
 	loaded, snapAfter, nontrivial := false, false, false
 	for i, op := range in.Ops {
 		res, viol, err := r.step(op, rng)
+		if err != nil && fail == "" && vsTransient(err) {
+			return VCase{Input: in, Key: key, Inconcl: fmt.Sprintf("step %d (%s): %v", i, op.Kind, err)}
+		}
 		if err != nil {
 			if fail != "" {
 				return VCase{Input: in, Key: key, OracleFail: fail + fmt.Sprintf(" (then step %d (%s) failed: %v)", i, op.Kind, err), Sig: sig}
@@ -417,7 +510,7 @@ func c22RunCase(in c22Input, base string, seq int) VCase {
 			for k, c := range o.Cat {
 				cat[k] = fmt.Sprintf("(%s, %s, %s)", coqBool(c.Full), coqN(uint64(o.CatIdx[k])), coqN(uint64(c.NWal)))
 			}
-			nodeObs[j] = fmt.Sprintf("{| no_live := %s; no_full := %s; no_cat := %s |}", vsCoqNList(o.Live), coqBool(o.Full), coqList(cat))
+			nodeObs[j] = fmt.Sprintf("{| no_live := %s; no_full := %s; no_cat := %s; no_pend := %s |}", vsCoqNList(o.Live), coqBool(o.Full), coqList(cat), coqN(uint64(o.Pend)))
 		}
 		coqObs = append(coqObs, fmt.Sprintf("{| co_res := %s; co_nodes := %s |}", coqN(uint64(res)), coqList(nodeObs)))
 	}
@@ -481,6 +574,26 @@ func c22Gen(rng *rand.Rand, maxOps int) c22Input {
 				}
 				ops = append(ops, c22Op{Kind: "boot", Data: d, Wal: rng.Intn(2) == 0})
 			}
+		case x < 15 && rng.Intn(2) == 0:
+			// a snapshot of some node in flight while the cluster goes on: fsmSnapshot, then writes / loads, then the persist
+			nd := rng.Intn(nodes)
+			ops = append(ops, c22Op{Kind: "begin", Node: nd})
+			for k := rng.Intn(3); k >= 0; k-- {
+				val++
+				if rng.Intn(2) == 0 {
+					val += 10
+					copy(cur, c04RandCells(rng, val))
+					ops = append(ops, c22Op{Kind: "load", Data: append([]int{}, cur...), Wal: rng.Intn(2) == 0})
+				} else {
+					ks := c04RandKeys(rng)
+					for _, kk := range ks {
+						cur[kk-1] = val
+					}
+					ops = append(ops, c22Op{Kind: "write", Keys: ks, Val: val})
+				}
+			}
+			ops = append(ops, c22Op{Kind: "persist", Node: nd, Out: []string{"ok", "ok", "notinvoked", "failbefore"}[rng.Intn(4)]})
+			fullDue, wroteSince = false, false
 		case x < 17:
 			nd := rng.Intn(nodes)
 			op := c22Op{Kind: "snap", Node: nd}
@@ -561,6 +674,12 @@ func c22Corpus() []c22Input {
 			W(4, 4, 5), {Kind: "snap", Compact: true}, S(1), {Kind: "restart", Node: 1, Force: true}, J}},
 		c22Input{Ops: []c22Op{W(1, 12, 1), S(0), {Kind: "load", Data: all(3), Wal: true}, W(2, 3, 4), {Kind: "snap", Out: "blocked"}, {Kind: "snap", Out: "failbefore"}, {Kind: "snap", Out: "notinvoked"},
 			W(4, 4, 5), S(0), {Kind: "restart", Force: true}, {Kind: "snap", Compact: true}, J}},
+		// a load is applied while a full snapshot of the old database is in flight; its close clears FULL_NEEDED; then a
+		// skipped attempt and further snapshots (one compacting the log); rebuilds: unclean restart, joiner by install
+		c22Input{Ops: []c22Op{W(1, 24, 1), {Kind: "begin"}, {Kind: "load", Data: all(3), Wal: true}, {Kind: "persist", Out: "ok"}, W(2, 3, 4), {Kind: "snap", Out: "notinvoked"},
+			W(4, 5, 5), {Kind: "snap", Compact: true}, {Kind: "restart", Force: true}, J, W(6, 6, 7), S(1), {Kind: "restart", Node: 1, Force: true}}},
+		c22Input{Ops: []c22Op{W(1, 24, 1), S(0), J, {Kind: "load", Data: all(2), Wal: false}, W(1, 2, 9), {Kind: "begin"}, {Kind: "begin", Node: 1}, W(3, 4, 8), {Kind: "load", Data: all(3), Wal: true},
+			{Kind: "persist", Out: "ok"}, {Kind: "persist", Node: 1, Out: "ok"}, W(2, 3, 4), S(0), S(1), W(4, 5, 5), {Kind: "snap", Compact: true}, S(1), {Kind: "restart", Node: 1, Force: true}, J}},
 		// an incremental snapshot whose persist is skipped leaves a staged WAL; a boot replaces the database; the next
 		// incremental must not package the stale WAL: rebuild by unclean restart and by a joiner that gets the snapshot
 		c22Input{Ops: []c22Op{W(1, 24, 1), S(0), W(1, 24, 2), {Kind: "snap", Out: "notinvoked"}, {Kind: "boot", Data: all(3), Wal: true}, W(2, 3, 4), S(0),
